@@ -1099,7 +1099,7 @@ int cms_signed_data_sign_to_der(
 				&issuer, &issuer_len, &serial, &serial_len) != 1
 			|| cms_signer_infos_add_signer_info(
 				signer_infos, &signer_infos_len, sizeof(signer_infos),
-				&sm3_ctx, signers->sign_key,
+				&sm3_ctx, signers[i].sign_key,
 				issuer, issuer_len, serial, serial_len,
 				NULL, 0, NULL, 0) != 1) {
 			error_print();
@@ -1802,7 +1802,7 @@ int cms_signed_and_enveloped_data_encipher_to_der(
 				&issuer, &issuer_len, &serial, &serial_len) != 1
 			|| cms_signer_infos_add_signer_info(
 				signer_infos, &signer_infos_len, sizeof(signer_infos),
-				&sm3_ctx, signers->sign_key,
+				&sm3_ctx, signers[i].sign_key,
 				issuer, issuer_len, serial, serial_len,
 				NULL, 0, NULL, 0) != 1) {
 			error_print();
